@@ -19,7 +19,7 @@ PROPS["C02"] = dict(
     verus=["c02_anchor", "c02_dispatch", "c02_matchers", "c02_regex", "c11_pattern_block"],
     labels=["C02."] + MASK,
     kani=[],
-    witness=["c02_remainder.rs", "c02_case.rs", "c02_model.rs"],
+    witness=["c02_remainder.rs", "c02_case.rs", "c02_model.rs", "c02_regex_model.rs"],
     trusted=["memchr::memmem::find = first occurrence (shim)", "str::starts_with/ends_with/contains byte-level axioms (&str and ASCII char patterns)",
              "UTF-8 facts stated as axioms: injectivity, both ends of a string are character boundaries, an occurrence of one string in another ends on a character boundary",
              "vstd's prophetic iterator model for ExactSizeIterator::len and Iterator::any over the rule's pattern iterator",
